@@ -201,10 +201,20 @@ namespace via
                       size_t max_content_length,
                       size_t max_chunk_size) :
       connection_(connection),
-      remote_address_(connection_.lock()->socket().
-                      remote_endpoint().address().to_string()),
+      remote_address_(),
       rx_(max_content_length, max_chunk_size)
-    {}
+    {
+      // Note: the peer may already have gone, so use the non throwing
+      // version of remote_endpoint
+      std::shared_ptr<connection_type> tcp_pointer(connection_.lock());
+      if (tcp_pointer)
+      {
+        ASIO_ERROR_CODE ec;
+        auto endpoint(tcp_pointer->socket().remote_endpoint(ec));
+        if (!ec)
+          remote_address_ = endpoint.address().to_string();
+      }
+    }
 
     /// The destructor calls close to ensure that all of the socket's
     /// callback functions are cancelled.
